@@ -11,7 +11,8 @@
 (*   [k |-> "ws"]                   the single-space token standing for a whitespace/comment run *)
 (*   [k |-> "tok", i |-> index]     the lexer's token number i (same type, same text up to ASCII case) *)
 (*   [k |-> "brace", i |-> index]   the synthesised '}' re-delivering brace token i              *)
-(*   [k |-> "join", i |-> index]    '*' + identifier (IE hack): tokens i and i+1 concatenated     *)
+(*   [k |-> "join", i |-> index]    IE hack: a '*' (after the last reported token) joined with    *)
+(*                                  input token i, whitespace/comments between them dropped      *)
 (*   [k |-> "custom", i, j]         custom property value: exact source text of tokens i..j       *)
 (*   [k |-> "none"]                 not a token of the input at or after the last one             *)
 (***************************************************************************)
@@ -34,7 +35,7 @@ Conserve(toks, k, la) ==
     ELSE LET t == toks[k] IN
          IF t.k = "ws" THEN Conserve(toks, k + 1, la)
          ELSE IF t.k = "none" THEN [ok |-> FALSE, last |-> la]
-         ELSE IF t.k = "join" THEN (IF t.i > la THEN Conserve(toks, k + 1, t.i + 1) ELSE [ok |-> FALSE, last |-> la])
+         ELSE IF t.k = "join" THEN (IF t.i > la + 1 THEN Conserve(toks, k + 1, t.i) ELSE [ok |-> FALSE, last |-> la])
          ELSE IF t.k = "custom" THEN (IF t.i > la /\ t.j >= t.i - 1 THEN Conserve(toks, k + 1, t.j) ELSE [ok |-> FALSE, last |-> la])
          ELSE (IF t.i > la THEN Conserve(toks, k + 1, t.i) ELSE [ok |-> FALSE, last |-> la])      \* "tok" and "brace"
 
